@@ -29,5 +29,11 @@ SetOption(i, v) ==
 Position(p) == cur' = p /\ UNCHANGED <<opts, hist>>
 Go(d) == hist' = Append(hist, <<cur, d>>) /\ UNCHANGED <<opts, cur>>
 
+\* `go infinite' ended by `stop': what it leaves in the tables depends on when the stop arrived, so the state it
+\* leads to is one of a kind (tag names the process and the command) until the next reset wipes it out
+Analyse(tag) == hist' = Append(hist, <<"analyse", tag>>) /\ UNCHANGED <<opts, cur>>
+\* `stop' with no search running changes nothing
+IdleStop == UNCHANGED <<opts, hist, cur>>
+
 Key == <<opts, hist>>
 =============================================================================
